@@ -243,6 +243,10 @@ def public_base(t: T):
         return I('try_catch_return_false', X('std::exception'), *a)
     if n == 'try_catch_std_raise_nested':
         return I('try_catch_raise_nested', X('std::exception'), *a)
+    if n == 'try_catch_type_return_false':     # the exception type is the first template argument
+        return I('try_catch_return_false', *a)
+    if n == 'try_catch_type_raise_nested':
+        return I('try_catch_raise_nested', *a)
     if n == 'action':
         return I('action', *a)
     if n == 'state':
@@ -527,7 +531,8 @@ def body_of_internal(t: T):
     if n == 'raise':
         return ('raise', ty)
     if n in ('try_catch_return_false', 'try_catch_raise_nested'):
-        ex = {'void': 'any', 'std::exception': 'std', 'tao::pegtl::parse_error_base': 'parse'}[a[0][1]]
+        # parse_error is the only class derived from parse_error_base that the library throws: catching it = catching the base
+        ex = {'void': 'any', 'std::exception': 'std', 'tao::pegtl::parse_error_base': 'parse', 'tao::pegtl::parse_error': 'parse'}[a[0][1]]
         if not ty:
             return ('atom', ['success'])
         if len(ty) > 1:
